@@ -2,6 +2,7 @@ SPECIFICATION Spec
 CONSTANTS
   Scheds <- SchedsLive
   Blocking = {}
+  Panicking = {}
   MaxNow = 4
   MaxStep = 2
   MaxOps = 3
